@@ -65,6 +65,8 @@ pub fn wire_blob(allow_big: bool) -> BoxedStrategy<Blob> {
             3 => (0u32..=2000, any::<u32>()).prop_map(|(n, s)| Blob::Rnd(n, s)),
             1 => (16_000u32..=48 * 1024, any::<u8>()).prop_map(|(n, k)| Blob::Rep(n, k)),
             1 => (16_000u32..=40 * 1024, any::<u32>()).prop_map(|(n, s)| Blob::Rnd(n, s)),
+            // larger than two yield thresholds and than the default 64 KiB stream window
+            1 => (66_000u32..=130_000, any::<u8>()).prop_map(|(n, k)| Blob::Rep(n, k)),
         ]
         .boxed()
     } else {
